@@ -151,6 +151,16 @@ Section ReplaySat.
     intros _. eexists; reflexivity.
   Qed.
 
+  (* feasibility does not depend on the saturation: the same decisions replay through DP.replay,
+     reaching the same state (the value may differ only if an isize overflow was clamped) *)
+  Lemma replay_sat_feasible ds : forall s v s' v' w,
+    replay_sat ds s v = Some (s', v') -> exists w', replay pb ds s w = Some (s', w').
+  Proof.
+    induction ds as [|d ds IH]; intros s v s' v' w H; simpl in *.
+    - inversion H; subst. eexists; reflexivity.
+    - destruct (in_domain pb s d); [|discriminate]. unfold step. eapply IH; eauto.
+  Qed.
+
 End ReplaySat.
 
 Section Exact.
@@ -436,12 +446,19 @@ Section Exact.
     0 < length (m_nodes m) /\ n_state (gn m 0) = sp_state root /\ n_vtop (gn m 0) = sp_value root /\
     n_depth (gn m 0) = sp_depth root /\ m_path m = sp_path root.
 
+  (* the decision of an edge branches on the variable that next_variable returned for the layer of
+     its source (for some layer content [states]) *)
+  Definition edge_var_ok (m : mdd) (eid : nat) : Prop :=
+    exists states, next_variable pb (n_depth (gn m (e_from (get_edge m eid)))) states
+                   = Some (d_var (e_dec (get_edge m eid))).
+
   (* the static invariant: what the theorems need of a finished diagram *)
   Record Sinv (m : mdd) : Prop := {
     S_nodes : forall id, id < length (m_nodes m) -> node_ok m id;
     S_root : root_ok m;
     S_efrom : forall eid, eid < length (m_edges m) -> e_from (get_edge m eid) < length (m_nodes m);
-    S_next : forall id, In id (m_next m) -> id < length (m_nodes m) }.
+    S_next : forall id, In id (m_next m) -> id < length (m_nodes m);
+    S_var : forall eid, eid < length (m_edges m) -> edge_var_ok m eid }.
 
   (* the dynamic invariant: sources of edges are closed nodes (below m_layer_end), open nodes are above;
      [P] selects the nodes whose node_ok is claimed (all but a freshly created one) *)
@@ -450,18 +467,19 @@ Section Exact.
     D_root : root_ok m;
     D_efrom : forall eid, eid < length (m_edges m) -> e_from (get_edge m eid) < m_layer_end m;
     D_le : m_layer_end m <= length (m_nodes m);
-    D_next : forall id, In id (m_next m) -> m_layer_end m <= id < length (m_nodes m) }.
+    D_next : forall id, In id (m_next m) -> m_layer_end m <= id < length (m_nodes m);
+    D_var : forall eid, eid < length (m_edges m) -> edge_var_ok m eid }.
   Definition Dinv := Dg (fun _ => True).
 
   Lemma Dinv_Sinv m : Dinv m -> Sinv m.
   Proof.
-    intros [H1 H2 H3 H4 H5]. split; auto.
+    intros [H1 H2 H3 H4 H5 H6]. split; auto.
     - intros eid He. specialize (H3 eid He). lia.
     - intros id Hid. apply H5 in Hid. lia.
   Qed.
 
   Lemma Dg_weaken (P Q : nat -> Prop) m : (forall id, Q id -> P id) -> Dg P m -> Dg Q m.
-  Proof. intros HPQ [H1 H2 H3 H4 H5]. split; auto. Qed.
+  Proof. intros HPQ [H1 H2 H3 H4 H5 H6]. split; auto. Qed.
 
   Lemma node_ok_transfer (m m' : mdd) id :
     node_ok m id ->
@@ -486,6 +504,18 @@ Section Exact.
       repeat split; auto.
   Qed.
 
+  Lemma edge_var_ok_transfer (m m' : mdd) eid :
+    edge_var_ok m eid -> get_edge m' eid = get_edge m eid ->
+    n_depth (gn m' (e_from (get_edge m eid))) = n_depth (gn m (e_from (get_edge m eid))) ->
+    edge_var_ok m' eid.
+  Proof. intros [st H] He Hd. exists st. rewrite He, Hd. exact H. Qed.
+
+  Lemma edge_var_ok_peq m m' eid : peq m m' -> edge_var_ok m eid -> edge_var_ok m' eid.
+  Proof.
+    intros (A1 & A2 & A3 & A4) H. eapply edge_var_ok_transfer; [exact H|apply ge_edges_eq; exact A1|].
+    destruct (A4 (e_from (get_edge m eid))) as (_ & _ & _ & _ & _ & _ & c7). congruence.
+  Qed.
+
   Lemma node_ok_peq m m' id : peq m m' -> node_ok m id -> node_ok m' id.
   Proof.
     intros (A1 & A2 & A3 & A4) Hok. eapply node_ok_transfer; eauto.
@@ -502,10 +532,11 @@ Section Exact.
   Lemma Sinv_peq m m' :
     peq m m' -> (forall id, In id (m_next m') -> id < length (m_nodes m')) -> Sinv m -> Sinv m'.
   Proof.
-    intros Hp Hnext [H1 H2 H3 H4]. pose proof Hp as (A1 & A2 & A3 & A4). split; auto.
+    intros Hp Hnext [H1 H2 H3 H4 H5]. pose proof Hp as (A1 & A2 & A3 & A4). split; auto.
     - intros id Hid. eapply node_ok_peq; eauto. apply H1. lia.
     - eapply root_ok_peq; eauto.
     - intros eid He. rewrite (ge_edges_eq m m' eid A1). rewrite A3. apply H3. rewrite <- A1. exact He.
+    - intros eid He. eapply edge_var_ok_peq; eauto. apply H5. rewrite <- A1. exact He.
   Qed.
 
   Lemma Dg_peq P m m' :
@@ -514,21 +545,23 @@ Section Exact.
     (forall id, In id (m_next m') -> m_layer_end m' <= id < length (m_nodes m')) ->
     Dg P m'.
   Proof.
-    intros Hp [H1 H2 H3 H4 H5] Hle1 Hle2 Hnext. pose proof Hp as (A1 & A2 & A3 & A4). split; auto.
+    intros Hp [H1 H2 H3 H4 H5 H6] Hle1 Hle2 Hnext. pose proof Hp as (A1 & A2 & A3 & A4). split; auto.
     - intros id Hid HP. eapply node_ok_peq; eauto. apply H1; auto. lia.
     - eapply root_ok_peq; eauto.
     - intros eid He. rewrite (ge_edges_eq m m' eid A1). rewrite A1 in He. specialize (H3 eid He). lia.
+    - intros eid He. eapply edge_var_ok_peq; eauto. apply H6. rewrite <- A1. exact He.
   Qed.
 
   (* same next / layer_end / layers / lel / cutset: the usual case *)
   Definition ceq (m m' : mdd) : Prop :=
     peq m m' /\ m_next m' = m_next m /\ m_layer_end m' = m_layer_end m /\
-    m_layers m' = m_layers m /\ m_lel m' = m_lel m /\ m_cutset m' = m_cutset m.
+    m_layers m' = m_layers m /\ m_lel m' = m_lel m /\ m_cutset m' = m_cutset m /\
+    m_curr_depth m' = m_curr_depth m.
   Lemma ceq_refl m : ceq m m.
   Proof. split; [apply peq_refl|repeat split]. Qed.
   Lemma ceq_trans m1 m2 m3 : ceq m1 m2 -> ceq m2 m3 -> ceq m1 m3.
   Proof.
-    intros (A & B & C & D & E & F) (A' & B' & C' & D' & E' & F').
+    intros (A & B & C & D & E & F & G) (A' & B' & C' & D' & E' & F' & G').
     split; [eapply peq_trans; eauto|]. repeat split; congruence.
   Qed.
   Lemma Dg_ceq P m m' : ceq m m' -> Dg P m -> Dg P m'.
@@ -559,29 +592,30 @@ Section Exact.
   Proof. ceq_triv. Qed.
   Lemma ceq_with_polls (m : mdd) c : ceq m (with_polls m c).
   Proof. ceq_triv. Qed.
-  Lemma ceq_with_depth (m : mdd) c : ceq m (with_depth m c).
-  Proof. ceq_triv. Qed.
 
   (* closed nodes (below m_layer_end) keep their core; state and depth of a node never change *)
   Definition stable (m m' : mdd) : Prop :=
     m_layer_end m' = m_layer_end m /\ length (m_nodes m) <= length (m_nodes m') /\
     (forall id, id < m_layer_end m -> core_eq (gn m id) (gn m' id)) /\
     (forall id, id < length (m_nodes m) ->
-       n_state (gn m' id) = n_state (gn m id) /\ n_depth (gn m' id) = n_depth (gn m id)).
+       n_state (gn m' id) = n_state (gn m id) /\ n_depth (gn m' id) = n_depth (gn m id)) /\
+    m_curr_depth m' = m_curr_depth m.
   Lemma stable_refl m : stable m m.
   Proof. repeat split; auto. Qed.
   Lemma stable_trans m1 m2 m3 : stable m1 m2 -> stable m2 m3 -> stable m1 m3.
   Proof.
-    intros (A & B & C & D) (A' & B' & C' & D'). split; [congruence|]. split; [lia|]. split.
+    intros (A & B & C & D & E) (A' & B' & C' & D' & E'). split; [congruence|]. split; [lia|]. split; [|split].
     - intros id Hid. eapply core_eq_trans; [apply C; exact Hid|apply C'; rewrite A; exact Hid].
     - intros id Hid. destruct (D id Hid) as [d1 d2]. destruct (D' id) as [d1' d2']; [lia|].
       split; congruence.
+    - congruence.
   Qed.
   Lemma ceq_stable m m' : ceq m m' -> stable m m'.
   Proof.
-    intros ((A1 & A2 & A3 & A4) & _ & Hl & _). split; [exact Hl|]. split; [lia|]. split.
+    intros ((A1 & A2 & A3 & A4) & _ & Hl & _ & _ & _ & Hcd). split; [exact Hl|]. split; [lia|]. split; [|split].
     - intros id _. apply A4.
     - intros id _. destruct (A4 id) as (c1 & c2 & c3 & c4 & c5 & c6 & c7). split; congruence.
+    - exact Hcd.
   Qed.
 
   (* ================================================================== 5. preservation *)
@@ -622,9 +656,10 @@ Section Exact.
        | None => (n_vtop (gn m (e_to e)) <= sat_add (n_vtop (gn m (e_from e))) (e_cost e))%Z
        | Some b => best_ok m (e_to e) b
        end) ->
+    (exists states, next_variable pb (n_depth (gn m (e_from e))) states = Some (d_var (e_dec e))) ->
     Dinv (append_edge inp m e).
   Proof.
-    intros [H1 H2 H3 H4 H5] Hfrom Hto Hlt Hinb Hpre.
+    intros [H1 H2 H3 H4 H5 H6] Hfrom Hto Hlt Hinb Hpre Hvar.
     assert (Hne : e_from e <> e_to e) by lia.
     assert (Hedges : m_edges (append_edge inp m e) = m_edges m ++ [e]) by reflexivity.
     assert (Hlen : length (m_nodes (append_edge inp m e)) = length (m_nodes m))
@@ -675,17 +710,25 @@ Section Exact.
         rewrite (ge_snoc_old m _ e x Hedges Hx'). apply H3; exact Hx'.
     - rewrite Hlen. exact H4.
     - intros id Hid. rewrite Hlen. apply H5. exact Hid.
+    - (* variables *)
+      intros x Hx. rewrite Helen in Hx.
+      destruct (Nat.eq_dec x (length (m_edges m))) as [->|Hxne].
+      + unfold edge_var_ok. rewrite (ge_snoc_new m _ e Hedges). rewrite gn_append_other by exact Hne. exact Hvar.
+      + assert (Hx' : x < length (m_edges m)) by lia.
+        eapply edge_var_ok_transfer; [apply H6; exact Hx'|apply (ge_snoc_old m _ e x Hedges Hx')|].
+        specialize (H3 x Hx'). rewrite gn_append_other by lia. reflexivity.
   Qed.
 
   Lemma append_edge_stable (m : mdd) e :
     m_layer_end m <= e_to e -> stable m (append_edge inp m e).
   Proof.
-    intros Hto. split; [reflexivity|]. split; [|split].
+    intros Hto. split; [reflexivity|]. split; [|split; [|split]].
     - msimpl. rewrite upd_nth_length. lia.
     - intros id Hid. rewrite gn_append_other by lia. apply core_eq_refl.
     - intros id Hid. destruct (Nat.eq_dec id (e_to e)) as [->|Hne].
       + rewrite gn_append_same by exact Hid. split; reflexivity.
       + rewrite gn_append_other by exact Hne. split; reflexivity.
+    - reflexivity.
   Qed.
   (* ---------------------------------------------------------------- the extra invariant
      (empty cutset during compilation; nodes are exact-flagged as long as nothing was squashed /
@@ -705,7 +748,7 @@ Section Exact.
 
   Lemma Xinv_ceq m m' : ceq m m' -> Xinv m -> Xinv m'.
   Proof.
-    intros ((A1 & A2 & A3 & A4) & Hn & Hl & Hly & Hlel & Hcs) [X1 X2 X3 X4 X5 X6].
+    intros ((A1 & A2 & A3 & A4) & Hn & Hl & Hly & Hlel & Hcs & _) [X1 X2 X3 X4 X5 X6].
     split.
     - congruence.
     - intros Ht id Hid. rewrite <- (core_eq_is_exact _ _ (A4 id)). apply X2; auto. lia.
@@ -756,7 +799,7 @@ Section Exact.
   Lemma Dg_snoc_node (m : mdd) n :
     Dinv m -> Dg (fun id => id <> length (m_nodes m)) (with_nodes m (m_nodes m ++ [n])).
   Proof.
-    intros [H1 H2 H3 H4 H5]. split.
+    intros [H1 H2 H3 H4 H5 H6]. split.
     - intros id Hid Hne. rewrite len_snoc in Hid.
       assert (Hid' : id < length (m_nodes m)) by lia.
       eapply node_ok_transfer.
@@ -769,6 +812,8 @@ Section Exact.
     - exact H3.
     - rewrite len_snoc. msimpl. lia.
     - intros id Hid. rewrite len_snoc. msimpl. apply H5 in Hid. lia.
+    - intros x Hx. eapply edge_var_ok_transfer; [apply H6; exact Hx|reflexivity|].
+      specialize (H3 x Hx). rewrite gn_snoc_old by lia. reflexivity.
   Qed.
 
   Lemma Xinv_snoc_node (m : mdd) n :
@@ -800,9 +845,10 @@ Section Exact.
   Lemma snoc_node_stable (m : mdd) n :
     m_layer_end m <= length (m_nodes m) -> stable m (with_nodes m (m_nodes m ++ [n])).
   Proof.
-    intros Hle. split; [reflexivity|]. split; [rewrite len_snoc; lia|]. split.
+    intros Hle. split; [reflexivity|]. split; [rewrite len_snoc; lia|]. split; [|split].
     - intros id Hid. rewrite gn_snoc_old by lia. apply core_eq_refl.
     - intros id Hid. rewrite gn_snoc_old by lia. split; reflexivity.
+    - reflexivity.
   Qed.
 
   (* ---------------------------------------------------------------- branch_on *)
@@ -813,11 +859,12 @@ Section Exact.
     Dinv m -> Xinv m -> from_id < m_layer_end m ->
     next_depth (S (n_depth (gn m from_id))) m ->
     in_domain pb (n_state (gn m from_id)) d = true ->
+    (exists states, next_variable pb (n_depth (gn m from_id)) states = Some (d_var d)) ->
     Dinv (branch_on st_eqb inp m from_id d) /\ Xinv (branch_on st_eqb inp m from_id d) /\
     stable m (branch_on st_eqb inp m from_id d) /\
     next_depth (S (n_depth (gn m from_id))) (branch_on st_eqb inp m from_id d).
   Proof.
-    intros HD HX Hfrom Hnd Hdom.
+    intros HD HX Hfrom Hnd Hdom Hv.
     unfold branch_on. cbv zeta.
     set (state := n_state (gn m from_id)).
     set (ns := transition (ci_problem inp) state d).
@@ -848,6 +895,7 @@ Section Exact.
           repeat split; auto.
           rewrite Hgn1 in Hbest. destruct (n_best (gn m t)); auto.
           exfalso. change (m_layer_end m1) with (m_layer_end m) in Hrange. lia.
+        * rewrite Hgn1. exact Hv.
       + apply append_edge_Xinv; unfold e; nsimpl; auto; lia.
       + eapply stable_trans; [apply ceq_stable; exact Hc1|]. apply append_edge_stable. unfold e; nsimpl. lia.
       + intros id Hid. change (In id (m_next m)) in Hid.
@@ -879,7 +927,8 @@ Section Exact.
       { apply append_edge_Dg; unfold e; nsimpl; auto; try lia.
         - intros x. rewrite Hgn2new. simpl. tauto.
         - intros _. rewrite Hgn2new. rewrite Hgn2old by (change (m_layer_end m1) with (m_layer_end m) in Hle1; lia).
-          unfold n. nsimpl. repeat split; auto. lia. }
+          unfold n. nsimpl. repeat split; auto. lia.
+        - rewrite Hgn2old by (change (m_layer_end m1) with (m_layer_end m) in Hle1; lia). exact Hv. }
       assert (HX3 : Xinv m3).
       { apply append_edge_Xinv; unfold e; nsimpl; auto; lia. }
       assert (Hst3 : stable m m3).
@@ -900,7 +949,7 @@ Section Exact.
           destruct Hid as [Hid|[<-|[]]]; [|lia].
           pose proof (D_next _ _ HD id Hid). change (length (m_nodes m1)) with (length (m_nodes m)) in t. lia.
       + destruct HX3 as [X1 X2 X3 X4 X5 X6]. split; auto.
-      + destruct Hst3 as (s1 & s2 & s3 & s4). split; [exact s1|]. split; [exact s2|]. split; [exact s3|exact s4].
+      + destruct Hst3 as (s1 & s2 & s3 & s4 & s5). split; [exact s1|]. split; [exact s2|]. split; [exact s3|]. split; [exact s4|exact s5].
       + intros id Hid. change (In id (m_next m ++ [t])) in Hid. apply in_app_or in Hid.
         change (gn (with_next m3 (m_next m3 ++ [t])) id) with (gn m3 id).
         destruct Hid as [Hid|[<-|[]]].
@@ -920,11 +969,12 @@ Section Exact.
 
   Lemma expand_node_inv (var : nat) (m : mdd) (id : nat) :
     Dinv m -> Xinv m -> id < m_layer_end m -> next_depth (S (n_depth (gn m id))) m ->
+    (exists states, next_variable pb (n_depth (gn m id)) states = Some var) ->
     Dinv (expand_node st_eqb inp var m id) /\ Xinv (expand_node st_eqb inp var m id) /\
     stable m (expand_node st_eqb inp var m id) /\
     next_depth (S (n_depth (gn m id))) (expand_node st_eqb inp var m id).
   Proof.
-    intros HD HX Hid Hnd. unfold expand_node. cbv zeta.
+    intros HD HX Hid Hnd Hv. unfold expand_node. cbv zeta.
     set (state := n_state (gn m id)).
     set (m1 := upd_node m id (fun n => set_rub n (fast_upper_bound (ci_relax inp) state))).
     assert (Hc1 : ceq m m1) by (apply ceq_upd_node; intros n; apply core_eq_set_rub).
@@ -948,12 +998,13 @@ Section Exact.
              (fun m' => Dinv m' /\ Xinv m' /\ stable m m' /\ next_depth (S (n_depth (gn m id))) m')).
     - auto.
     - intros a val Hval (Ha1 & Ha2 & Ha3 & Ha4).
-      pose proof Ha3 as (s1 & s2 & s3 & s4).
+      pose proof Ha3 as (s1 & s2 & s3 & s4 & s5).
       destruct (s4 id Hidlen) as [Hs Hdp].
       assert (Hida : id < m_layer_end a) by (rewrite s1; exact Hid).
       destruct (branch_on_inv a id {| d_var := var; d_val := val |} Ha1 Ha2 Hida) as (B1 & B2 & B3 & B4).
       + rewrite Hdp. exact Ha4.
       + rewrite Hs. apply in_domain_of_In. exact Hval.
+      + rewrite Hdp. exact Hv.
       + split; [exact B1|]. split; [exact B2|]. split.
         * eapply stable_trans; eauto.
         * rewrite Hdp in B4. exact B4.
@@ -962,15 +1013,16 @@ Section Exact.
   Lemma expand_layer_inv (var : nat) (l : list nat) (d : nat) : forall (m : mdd),
     Dinv m -> Xinv m -> next_depth (S d) m ->
     (forall id, In id l -> id < m_layer_end m /\ n_depth (gn m id) = d) ->
+    (exists states, next_variable pb d states = Some var) ->
     Dinv (fold_left (expand_node st_eqb inp var) l m) /\ Xinv (fold_left (expand_node st_eqb inp var) l m) /\
     stable m (fold_left (expand_node st_eqb inp var) l m) /\
     next_depth (S d) (fold_left (expand_node st_eqb inp var) l m).
   Proof.
-    intros m HD HX Hnd Hl.
+    intros m HD HX Hnd Hl Hv.
     apply (fold_left_inv (fun m' => Dinv m' /\ Xinv m' /\ stable m m' /\ next_depth (S d) m')).
     - split; [exact HD|]. split; [exact HX|]. split; [apply stable_refl|exact Hnd].
     - intros a id Hin (Ha1 & Ha2 & Ha3 & Ha4).
-      pose proof Ha3 as (s1 & s2 & s3 & s4).
+      pose proof Ha3 as (s1 & s2 & s3 & s4 & s5).
       destruct (Hl id Hin) as [Hlt Hdp].
       assert (Hidlen : id < length (m_nodes m)) by (pose proof (D_le _ _ HD); lia).
       destruct (s4 id Hidlen) as [_ Hdp'].
@@ -978,6 +1030,7 @@ Section Exact.
       destruct (expand_node_inv var a id Ha1 Ha2) as (B1 & B2 & B3 & B4).
       + rewrite s1; exact Hlt.
       + rewrite Hd. exact Ha4.
+      + rewrite Hd. exact Hv.
       + rewrite Hd in B4. split; [exact B1|]. split; [exact B2|]. split; [|exact B4].
         eapply stable_trans; eauto.
   Qed.
@@ -1064,7 +1117,7 @@ Section Exact.
   Lemma layer_ok_stable m m' l l' d :
     stable m m' -> layer_ok m l d -> incl l' l -> layer_ok m' l' d.
   Proof.
-    intros (s1 & s2 & s3 & s4) Hl Hincl id Hin. apply Hincl in Hin. destruct (Hl id Hin) as [Hr Hd].
+    intros (s1 & s2 & s3 & s4 & s5) Hl Hincl id Hin. apply Hincl in Hin. destruct (Hl id Hin) as [Hr Hd].
     destruct (s4 id) as [_ Hd']; [lia|]. rewrite s1. split; [lia|congruence].
   Qed.
 
@@ -1074,7 +1127,8 @@ Section Exact.
     m_layer_end (note_squash inp m) = m_layer_end m /\ m_layers (note_squash inp m) = m_layers m /\
     m_cutset (note_squash inp m) = m_cutset m /\
     m_lel (note_squash inp m) =
-      match m_lel m with Some k => Some k | None => Some (length (m_layers m) - 1) end.
+      match m_lel m with Some k => Some k | None => Some (length (m_layers m) - 1) end /\
+    m_curr_depth (note_squash inp m) = m_curr_depth m.
   Proof.
     unfold note_squash. cbv zeta. rewrite not_pooled. destruct (m_lel m) eqn:E; repeat split; auto.
   Qed.
@@ -1086,7 +1140,7 @@ Section Exact.
     forall k, gn (note_squash inp m) k = gn m k.
   Proof.
     intros HD HX Hly.
-    destruct (note_squash_fields m) as (F1 & F2 & F3 & F4 & F5 & F6 & F7 & F8).
+    destruct (note_squash_fields m) as (F1 & F2 & F3 & F4 & F5 & F6 & F7 & F8 & F9).
     assert (Hp : peq m (note_squash inp m)) by (apply peq_same_nodes; auto).
     assert (Hgn : forall k, gn (note_squash inp m) k = gn m k) by (intros k; apply gn_nodes_eq; exact F1).
     split; [|split; [|split; [|split; [|split]]]]; auto.
@@ -1107,9 +1161,10 @@ Section Exact.
         * eapply X6; eauto.
         * apply X3; auto. pose proof (D_le _ _ HD).
           assert (id < m_layer_end m) by (eapply X5; eauto; eapply nth_error_In; eauto). lia.
-    - split; [exact F5|]. split; [rewrite F1; lia|]. split.
+    - split; [exact F5|]. split; [rewrite F1; lia|]. split; [|split].
       + intros id _. rewrite Hgn. apply core_eq_refl.
       + intros id _. rewrite Hgn. split; reflexivity.
+      + exact F9.
     - rewrite F8. destruct (m_lel m); discriminate.
   Qed.
 
@@ -1154,7 +1209,7 @@ Section Exact.
     { intros k. destruct (Nat.eq_dec k id) as [->|Hne].
       - rewrite Hsame. repeat split.
       - rewrite Hother by exact Hne. repeat split. }
-    destruct HD as [H1 H2 H3 H4 H5].
+    destruct HD as [H1 H2 H3 H4 H5 H6].
     split; [|split; [|split; [|split]]].
     - split.
       + intros k Hk _. rewrite Hlen in Hk. destruct (Nat.eq_dec k id) as [->|Hne].
@@ -1171,6 +1226,8 @@ Section Exact.
       + exact H3.
       + rewrite Hlen. exact H4.
       + rewrite Hlen. exact H5.
+      + intros x Hx. eapply edge_var_ok_transfer; [apply H6; exact Hx|reflexivity|].
+        destruct (Hsd (e_from (get_edge m x))) as (_ & _ & q3 & _). exact q3.
     - destruct HX as [X1 X2 X3 X4 X5 X6]. split.
       + exact X1.
       + intros Hnt. congruence.
@@ -1180,9 +1237,10 @@ Section Exact.
       + intros k ids x G1 G2 G3.
         assert (x < m_layer_end m) by (eapply X5; eauto; eapply nth_error_In; eauto).
         rewrite Hother by lia. eapply X6; eauto.
-    - split; [reflexivity|]. split; [lia|]. split.
+    - split; [reflexivity|]. split; [lia|]. split; [|split].
       + intros k Hk. rewrite Hother by lia. apply core_eq_refl.
       + intros k _. destruct (Hsd k) as (q1 & _ & q3 & _). auto.
+      + reflexivity.
     - reflexivity.
     - rewrite Hsame. reflexivity.
   Qed.
@@ -1212,7 +1270,7 @@ Section Exact.
       assert (Hc : ceq a a1) by apply ceq_add_log.
       assert (HD1 : Dinv a1) by (eapply Dg_ceq; eauto).
       assert (HX1 : Xinv a1) by (eapply Xinv_ceq; eauto).
-      pose proof A3 as (s1 & s2 & s3 & s4).
+      pose proof A3 as (s1 & s2 & s3 & s4 & s5).
       assert (Hfrom : e_from e < m_layer_end a) by (apply (D_efrom _ _ A1); exact Heid).
       assert (Hlea : m_layer_end a <= length (m_nodes a)) by apply (D_le _ _ A1).
       split; [|split; [|split; [|split; [|split; [|split]]]]].
@@ -1223,6 +1281,7 @@ Section Exact.
         * change (length (m_nodes a1)) with (length (m_nodes a)). lia.
         * apply (D_nodes _ _ HD1 merged_id); [change (length (m_nodes a1)) with (length (m_nodes a)); lia|exact I].
         * intros Hr. change (gn a1 merged_id) with (gn a merged_id) in Hr. congruence.
+        * apply (D_var _ _ HD1 eid). exact Heid.
       + apply append_edge_Xinv; unfold e'; nsimpl; auto.
         * change (m_layer_end a1) with (m_layer_end a). lia.
         * change (length (m_nodes a1)) with (length (m_nodes a)). lia.
@@ -1261,7 +1320,7 @@ Section Exact.
         { apply ceq_upd_node. intros n. apply core_eq_set_flags_nc; reflexivity. }
         assert (HD1 : Dinv a1) by (eapply Dg_ceq; eauto).
         assert (HX1 : Xinv a1) by (eapply Xinv_ceq; eauto).
-        pose proof A3 as (s1 & s2 & s3 & s4).
+        pose proof A3 as (s1 & s2 & s3 & s4 & s5).
         pose proof Hc as ((c1 & c2 & c3 & c4) & c5 & c6 & _).
         destruct (redirect_edges_inv a1 merged merged_id drop HD1 HX1) as (B1 & B2 & B3 & B4 & B5 & B6 & B7).
         + rewrite c3, A5. apply Hmrg; exact Hin.
@@ -1367,7 +1426,7 @@ Section Exact.
         assert (Hle1 : m_layer_end m1 <= mid) by apply (D_le _ _ HD1).
         assert (Hlen2 : length (m_nodes m2) = S mid) by apply len_snoc.
         assert (HD2 : Dinv m2).
-        { pose proof (Dg_snoc_node m1 n HD1) as [H1 H2 H3 H4 H5]. split; auto.
+        { pose proof (Dg_snoc_node m1 n HD1) as [H1 H2 H3 H4 H5 H6]. split; auto.
           intros id Hid _. destruct (Nat.eq_dec id mid) as [->|Hne].
           - split.
             + unfold m2, mid. rewrite gn_snoc_new. simpl. tauto.
@@ -1388,7 +1447,7 @@ Section Exact.
         * rewrite G4. exact N4.
         * intros x Hx. apply in_app_or in Hx. destruct Hx as [Hx|[<-|[]]].
           -- apply (layer_ok_stable m m4 l keep d Hst Hl); auto.
-          -- destruct Hst as (s1 & _). destruct G3 as (_ & _ & _ & g4).
+          -- destruct Hst as (s1 & _). destruct G3 as (_ & _ & _ & g4 & _).
              destruct (g4 mid) as [_ Hdp]; [lia|].
              rewrite s1, G5, Hlen2. destruct Hst1 as (t1 & _). rewrite t1 in Hle1.
              split; [lia|]. rewrite Hdp. unfold m2, mid. rewrite gn_snoc_new. unfold n. nsimpl.
@@ -1480,9 +1539,10 @@ Section Exact.
     | Some l => Dinv (fst (move_to_next_layer_clean st_eqb inp m)) /\
                 Xinv (fst (move_to_next_layer_clean st_eqb inp m)) /\
                 m_next (fst (move_to_next_layer_clean st_eqb inp m)) = [] /\
-                forall id, In id l ->
+                (forall id, In id l ->
                   id < m_layer_end (fst (move_to_next_layer_clean st_eqb inp m)) /\
-                  n_depth (gn (fst (move_to_next_layer_clean st_eqb inp m)) id) = d
+                  n_depth (gn (fst (move_to_next_layer_clean st_eqb inp m)) id) = d) /\
+                m_curr_depth (fst (move_to_next_layer_clean st_eqb inp m)) = m_curr_depth m
     end.
   Proof.
     intros HD HX Hnd. unfold move_to_next_layer_clean. cbv zeta.
@@ -1531,7 +1591,7 @@ Section Exact.
       set (from := m_layer_end md). set (to := length (m_nodes md)).
       assert (Hft : from <= to) by apply (D_le _ _ Q1).
       assert (Hp : peq md (push_layer md (seq from (to - from)) to)) by (apply peq_same_nodes; reflexivity).
-      split; [|split; [|split]].
+      split; [|split; [|split; [|split]]].
       + eapply Dg_peq; [exact Hp|exact Q1|exact Hft|apply Nat.le_refl|].
         intros id Hid. msimpl_in Hid. rewrite Q4, Hnc in Hid. destruct Hid.
       + apply Xg_push_layer.
@@ -1540,6 +1600,8 @@ Section Exact.
         * intros id Hid. apply in_seq in Hid. msimpl. lia.
       + msimpl. rewrite Q4. exact Hnc.
       + intros id Hid. destruct (Q5 id Hid) as [Hr Hdp]. msimpl. split; [unfold to; lia|exact Hdp].
+      + msimpl. destruct Q3 as (_ & _ & _ & _ & q5). rewrite q5.
+        destruct Hac as (_ & _ & _ & _ & _ & _ & a7). rewrite a7. reflexivity.
   Qed.
   (* ---------------------------------------------------------------- _initialize *)
   Lemma initialize_inv c ds polls :
@@ -1555,6 +1617,7 @@ Section Exact.
       + intros eid He. simpl in He. lia.
       + simpl. lia.
       + intros id [<-|[]]. simpl. lia.
+      + intros eid He. simpl in He. lia.
     - split.
       + reflexivity.
       + intros _ id Hid. simpl in Hid. assert (id = 0) by lia. subst id. reflexivity.
@@ -1567,10 +1630,10 @@ Section Exact.
 
   (* ---------------------------------------------------------------- the layer loop *)
   Lemma layer_loop_inv (fuel : nat) : forall (m : mdd),
-    Dinv m -> Xinv m -> (exists d, next_depth d m) ->
+    Dinv m -> Xinv m -> next_depth (m_curr_depth m) m ->
     Sinv (fst (layer_loop st_eqb inp fuel m)) /\ Xs (fst (layer_loop st_eqb inp fuel m)).
   Proof.
-    induction fuel as [|fuel IH]; intros m HD HX [d Hnd].
+    induction fuel as [|fuel IH]; intros m HD HX Hnd; set (d := m_curr_depth m) in Hnd.
     - simpl. split; [apply Dinv_Sinv; exact HD|apply Xinv_Xs; auto].
     - cbn [layer_loop]. cbv zeta.
       set (states := map (fun id => n_state (gn m id)) (m_next m)).
@@ -1579,6 +1642,7 @@ Section Exact.
       assert (Hc1 : ceq m m1) by apply ceq_add_log.
       assert (HD1 : Dinv m1) by (eapply Dg_ceq; eauto).
       assert (HX1 : Xinv m1) by (eapply Xinv_ceq; eauto).
+      assert (Hov : ov = next_variable pb d states) by reflexivity.
       destruct ov as [var|].
       2: { cbn [fst]. split; [apply Dinv_Sinv; exact HD1|apply Xinv_Xs; auto]. }
       set (m2 := with_polls m1 (S (m_polls m1))).
@@ -1593,15 +1657,17 @@ Section Exact.
       destruct (move_to_next_layer_clean st_eqb inp m2) as [m3 ol]. cbn [fst snd] in Hmv.
       destruct ol as [l|].
       2: { cbn [fst]. destruct Hmv as (M1 & M2 & _). auto. }
-      destruct Hmv as (M1 & M2 & M3 & M4).
+      destruct Hmv as (M1 & M2 & M3 & M4 & M5).
       assert (Hnd3 : next_depth (S d) m3) by (intros id Hid; rewrite M3 in Hid; destruct Hid).
       destruct (expand_layer_inv var l d m3 M1 M2 Hnd3 M4) as (E1 & E2 & E3 & E4).
+      { exists states. symmetry. exact Hov. }
       set (m4 := fold_left (expand_node st_eqb inp var) l m3) in *.
-      assert (Hc5 : ceq m4 (with_depth m4 (S (m_curr_depth m4)))) by apply ceq_with_depth.
+      assert (Hp5 : peq m4 (with_depth m4 (S (m_curr_depth m4)))) by (apply peq_same_nodes; reflexivity).
       apply IH.
-      + eapply Dg_ceq; eauto.
-      + eapply Xinv_ceq; eauto.
-      + exists (S d). exact E4.
+      + eapply Dg_peq; [exact Hp5|exact E1|apply Nat.le_refl|apply (D_le _ _ E1)|apply (D_next _ _ E1)].
+      + eapply Xg_peq; [exact Hp5|reflexivity|reflexivity|reflexivity|exact E2].
+      + cbn [m_curr_depth with_depth]. destruct E3 as (_ & _ & _ & _ & e5). rewrite e5.
+        change (m_curr_depth m2) with (m_curr_depth m) in M5. rewrite M5. exact E4.
   Qed.
 
   (* ================================================================== 7. the theorems, on any diagram satisfying Sinv *)
@@ -1684,7 +1750,7 @@ Section Exact.
   Qed.
   Lemma ceq_keq m m' :
     ceq m m' -> m_best m' = m_best m -> m_best_exact m' = m_best_exact m -> keq m m'.
-  Proof. intros (A & B & C & D & E & F) H1 H2. split; [exact A|]. repeat split; auto. Qed.
+  Proof. intros (A & B & C & D & E & F & _) H1 H2. split; [exact A|]. repeat split; auto. Qed.
 
   Lemma cache_update_keq (m : mdd) s dp v e : keq m (cache_update st_eqb inp m s dp v e).
   Proof.
@@ -2008,7 +2074,7 @@ Section Exact.
     Xs (fst (layer_loop st_eqb inp fuel (initialize inp c ds polls))).
   Proof.
     destruct (initialize_inv c ds polls) as (I1 & I2 & I3).
-    apply layer_loop_inv; auto. exists (sp_depth root). exact I3.
+    apply layer_loop_inv; auto.
   Qed.
 
   Lemma compile_Compiled tb tb2 c ds polls m :
@@ -2096,6 +2162,50 @@ Section Exact.
     sp_depth root <= n_depth (gn m id) /\
     m_path m = sp_path root.
   Proof. intros m. apply Sinv_clean_chain_replays. apply layer_loop_Sinv. Qed.
+
+  (* T3, the variables: the k-th decision from the root branches on the variable that next_variable
+     returned at depth (sp_depth root + k) (for the content [states] of that layer) *)
+  Lemma Sinv_clean_chain_vars_walk (m : mdd) :
+    Sinv m -> forall id, clean_chain m id -> forall fuel, id < fuel -> id < length (m_nodes m) ->
+    forall k d, nth_error (rev (walk_up inp fuel m (n_best (gn m id)))) k = Some d ->
+    exists states, next_variable pb (sp_depth root + k) states = Some (d_var d).
+  Proof.
+    intros HS id Hcc. induction Hcc as [Hr Hb|id eid Hr Hb Hcc IH]; intros fuel Hf Hid k d Hk.
+    - rewrite Hb in Hk. destruct fuel; destruct k; discriminate.
+    - destruct (S_nodes _ HS id Hid) as [_ Hok]. specialize (Hok Hr). rewrite Hb in Hok.
+      destruct Hok as (b1 & b2 & b3 & b4 & b5 & b6 & b7 & b8 & b9).
+      destruct fuel as [|fuel]; [lia|].
+      rewrite Hb in Hk. cbn [walk_up rev] in Hk.
+      set (p := e_from (get_edge m eid)) in *.
+      assert (Hp : p < length (m_nodes m)) by lia.
+      assert (Hpf : p < fuel) by lia.
+      destruct (Sinv_clean_chain_walk m HS p Hcc fuel Hpf Hp) as [_ Hdepth].
+      set (W := walk_up inp fuel m (n_best (gn m p))) in *.
+      destruct (Nat.lt_ge_cases k (length (rev W))) as [Hlt|Hge].
+      + rewrite nth_error_app1 in Hk by exact Hlt. eapply IH; eauto.
+      + rewrite nth_error_app2 in Hk by exact Hge.
+        rewrite rev_length in Hge, Hk.
+        destruct (k - length W) as [|j] eqn:Ej; [|destruct j; discriminate].
+        simpl in Hk. inversion Hk; subst d.
+        destruct (S_var _ HS eid b1) as [st Hst]. exists st.
+        replace (sp_depth root + k) with (n_depth (gn m p)) by lia. exact Hst.
+  Qed.
+
+  Lemma Sinv_clean_chain_vars (m : mdd) id :
+    Sinv m -> clean_chain m id -> id < length (m_nodes m) ->
+    forall k d, nth_error (rev (chain m id)) k = Some d ->
+    exists states, next_variable pb (sp_depth root + k) states = Some (d_var d).
+  Proof.
+    intros HS Hcc Hid. unfold chain. eapply Sinv_clean_chain_vars_walk; eauto.
+  Qed.
+
+  Theorem clean_chain_variables tb tb2 c ds polls m id :
+    compile st_eqb inp tb tb2 c ds polls = (m, Compiled) ->
+    clean_chain m id -> id < length (m_nodes m) ->
+    forall k d, nth_error (rev (chain m id)) k = Some d ->
+    exists states, next_variable pb (sp_depth root + k) states = Some (d_var d).
+  Proof. intros H. apply Sinv_clean_chain_vars. eapply compile_Sinv; eauto. Qed.
+
 
   (* ---------------------------------------------------------------- C1 *)
   Theorem restricted_solution_feasible tb tb2 c ds polls m b :
@@ -2196,3 +2306,19 @@ Section Exact.
     split; [reflexivity|]. split; [reflexivity|]. split; [reflexivity|]. split; [exact R1|]. lia.
   Qed.
 End Exact.
+
+(* ------------------------------------------------------------------ assumptions *)
+Print Assumptions replay_sat_eq_replay.
+Print Assumptions finalize_preserves_paths.
+Print Assumptions exact_flag_implies_clean_chain.
+Print Assumptions exact_flag_implies_clean_chain_loop.
+Print Assumptions has_exact_best_path_implies_clean_chain.
+Print Assumptions has_exact_best_path_implies_clean_chain_loop.
+Print Assumptions clean_chain_replays.
+Print Assumptions clean_chain_replays_loop.
+Print Assumptions clean_chain_variables.
+Print Assumptions restricted_solution_feasible.
+Print Assumptions restricted_best_solution_replays.
+Print Assumptions cutset_nodes_exact.
+Print Assumptions best_exact_solution_genuine.
+Print Assumptions relaxed_exact_solution_genuine.
